@@ -28,6 +28,11 @@ def gen_world(seed, tier):
     if rng.random() < 0.7:
         mult = rng.choice([1, 1, 1, 2, 3])
         base = [rng.randint(1, 6) for _ in range(rng.randint(2, 4))]
+        r3 = random.Random(H(seed, "c15small"))
+        if mult > 1 and r3.random() < 0.3:
+            # a small total next to a larger multiplicity: numbers above the total (an edge on a cycle carries a multiple
+            # of the walk's weight)
+            base = [r3.choice([1, 1, 2])] + ([1] if r3.random() < 0.3 else [])
         total = sum(base)
         nums = []
         for _ in range(rng.randint(2, 5)):
@@ -66,11 +71,18 @@ def gen_world(seed, tier):
             subsets.append(s)
     # make sure a cover exists
     missing = [u for u in universe if not any(u in s for s in subsets)]
-    if missing:
-        subsets.append(missing)
+    r2 = random.Random(H(seed, "c15cover"))
+    if missing and r2.random() < 0.92:
+        subsets.append(missing)         # otherwise no cover exists: solve() must then not claim one
+    if r2.random() < 0.2:
+        subsets.insert(r2.randrange(len(subsets) + 1), [])             # an empty subset, anywhere in the list
+    if r2.random() < 0.15 and subsets:
+        subsets.insert(r2.randrange(len(subsets) + 1), list(r2.choice(subsets)))     # the same subset twice
     args = {"universe": universe, "subsets": subsets, "solver_options": {}}
     if rng.random() < 0.7:
         args["subset_weights"] = [rng.choice([1, 1, 2, 3, 0.5, 2.5]) for _ in subsets]
+        if r2.random() < 0.15:
+            args["subset_weights"][r2.randrange(len(subsets))] = 0
     return {"class": "MinSetCover", "graph": None, "args": args}
 
 
@@ -156,7 +168,11 @@ def execute(spec):
         universe, subsets = args["universe"], args["subsets"]
         weights = args.get("subset_weights") or [1] * len(subsets)
         best, sel = ref.min_set_cover_weight(universe, subsets, weights)
-        if out["exc"]:
+        if best is None:
+            # no cover exists: anything but a claimed solution is acceptable
+            if out["solved"]:
+                V("solved_although_no_cover_exists", {"solution": repr(out.get("solution"))[:200], "subsets": subsets})
+        elif out["exc"]:
             V("exception", {"exc": out["exc"], "frame": out.get("frame"), "msg": out.get("msg")})
         elif out["solved"]:
             sol = out["solution"]
